@@ -259,3 +259,310 @@ Proof. intros W H. apply (lists_dispatch_res d now nowms n args hint r d' W H). 
 Theorem lists_dispatch_reply_wf d now nowms n args hint r d' :
   db_wf d -> lists_dispatch d now nowms n args hint = Some (r, d') -> reply_wf r = true.
 Proof. intros W H. apply (lists_dispatch_res d now nowms n args hint r d' W H). Qed.
+
+(* ------------------------------------------------------------------ consequences of the clauses *)
+Definition clause_keys (c : clause) : list bytes :=
+  match c with
+  | CKey k _ => [k]
+  | CMove s t _ _ => [s; t]
+  | CBlock _ keys _ => keys
+  | _ => []
+  end.
+
+(* frame: a key the command does not name keeps its value and its deadline *)
+Lemma accepts_frame c a b r : accepts c a b r -> same_except (clause_keys c) a b.
+Proof.
+  destruct c as [| r0 | k f | src dst fl tl | lf keys t]; cbn [accepts clause_keys]; intros A k0 N.
+  - apply A.
+  - apply A.
+  - destruct (as_list (a k)); [apply A; exact N|apply A].
+  - destruct (as_list (a src)) as [ls|]; [|apply A].
+    destruct (take_end fl ls) as [[x ls']|]; [|apply A].
+    destruct (as_list (a dst)); [|apply A]. destruct A as (_ & SE & _). apply SE. exact N.
+  - contradiction.
+Qed.
+
+(* a WRONGTYPE reply changes nothing *)
+Lemma accepts_wrongtype n args c a b :
+  ref_clause n args = Some c -> accepts c a b err_wrongtype -> unchanged a b.
+Proof.
+  intros RC A. destruct c as [| r0 | k f | src dst fl tl | lf keys t]; cbn [accepts] in A.
+  - apply A.
+  - apply A.
+  - destruct (as_list (a k)) as [l|]; [|apply A].
+    destruct A as (E & _). destruct (ref_clause_good n args k f RC l) as [_ NW]. congruence.
+  - destruct (as_list (a src)) as [ls|]; [|apply A].
+    destruct (take_end fl ls) as [[x ls']|]; [|apply A].
+    destruct (as_list (a dst)); [|apply A]. destruct A as (E & _). discriminate.
+  - contradiction.
+Qed.
+
+(* the clauses determine the reply (up to the one documented latitude) and the resulting view *)
+Lemma accepts_deterministic c a b1 b2 r1 r2 :
+  accepts c a b1 r1 -> accepts c a b2 r2 ->
+  (forall k, b1 k = b2 k) /\ (r1 = r2 \/ exists r0, c = CErrOr r0).
+Proof.
+  destruct c as [| r0 | k f | src dst fl tl | lf keys t]; cbn [accepts]; intros A1 A2.
+  - destruct A1 as [-> U1], A2 as [-> U2]. split; [intros k; rewrite U1, U2; reflexivity|left; reflexivity].
+  - destruct A1 as [_ U1], A2 as [_ U2]. split; [intros k; rewrite U1, U2; reflexivity|right; eauto].
+  - destruct (as_list (a k)) as [l|].
+    + destruct A1 as (-> & K1 & S1), A2 as (-> & K2 & S2). split; [|left; reflexivity].
+      intros k0. destruct (bytes_eq_dec k0 k) as [->|N]; [congruence|].
+      rewrite S1, S2; [reflexivity|intros [E|[]]; congruence..].
+    + destruct A1 as [-> U1], A2 as [-> U2]. split; [intros k0; rewrite U1, U2; reflexivity|left; reflexivity].
+  - destruct (as_list (a src)) as [ls|].
+    2:{ destruct A1 as [-> U1], A2 as [-> U2]. split; [intros k0; rewrite U1, U2; reflexivity|left; reflexivity]. }
+    destruct (take_end fl ls) as [[x ls']|].
+    2:{ destruct A1 as [-> U1], A2 as [-> U2]. split; [intros k0; rewrite U1, U2; reflexivity|left; reflexivity]. }
+    destruct (as_list (a dst)) as [ld|].
+    2:{ destruct A1 as [-> U1], A2 as [-> U2]. split; [intros k0; rewrite U1, U2; reflexivity|left; reflexivity]. }
+    destruct A1 as (-> & S1 & K1), A2 as (-> & S2 & K2). split; [|left; reflexivity].
+    intros k0. destruct (bytes_eqb_spec src dst) as [E|N].
+    + subst dst. destruct (bytes_eq_dec k0 src) as [->|N0]; [congruence|].
+      rewrite S1, S2; [reflexivity|intros [E|[E|[]]]; congruence..].
+    + destruct K1 as [K1 K1'], K2 as [K2 K2'].
+      destruct (bytes_eq_dec k0 src) as [->|N0]; [congruence|].
+      destruct (bytes_eq_dec k0 dst) as [->|N1]; [congruence|].
+      rewrite S1, S2; [reflexivity|intros [E|[E|[]]]; congruence..].
+  - contradiction.
+Qed.
+
+Lemma accepts_ext c a a' b b' r :
+  (forall k, a k = a' k) -> (forall k, b k = b' k) -> accepts c a b r -> accepts c a' b' r.
+Proof.
+  intros Ea Eb. destruct c as [| r0 | k f | src dst fl tl | lf keys t]; cbn [accepts].
+  - intros [-> U]. split; [reflexivity|]. intros k. rewrite <- Ea, <- Eb. apply U.
+  - intros [R U]. split; [exact R|]. intros k. rewrite <- Ea, <- Eb. apply U.
+  - rewrite <- Ea. destruct (as_list (a k)).
+    + intros (-> & K & Sx). split; [reflexivity|]. split; [rewrite <- Eb; exact K|].
+      intros k0 N. rewrite <- Ea, <- Eb. apply Sx. exact N.
+    + intros [-> U]. split; [reflexivity|]. intros k0. rewrite <- Ea, <- Eb. apply U.
+  - rewrite <- !Ea. destruct (as_list (a src)) as [ls|].
+    2:{ intros [-> U]. split; [reflexivity|]. intros k0. rewrite <- Ea, <- Eb. apply U. }
+    destruct (take_end fl ls) as [[x ls']|].
+    2:{ intros [-> U]. split; [reflexivity|]. intros k0. rewrite <- Ea, <- Eb. apply U. }
+    destruct (as_list (a dst)) as [ld|].
+    2:{ intros [-> U]. split; [reflexivity|]. intros k0. rewrite <- Ea, <- Eb. apply U. }
+    intros (-> & Sx & K). split; [reflexivity|]. split.
+    + intros k0 N. rewrite <- Ea, <- Eb. apply Sx. exact N.
+    + rewrite <- !Eb. exact K.
+  - tauto.
+Qed.
+
+(* LLEN is the number of elements *)
+Theorem llen_is_length d c k :
+  db_wf d -> lists_ok d ->
+  match as_list (raw_view d k) with
+  | Some l => exec_llen d [c; k] = (RInt (zlength l), d)
+  | None => exec_llen d [c; k] = (err_wrongtype, d)
+  end.
+Proof.
+  intros W Hok. pose proof (get_list_view d k W Hok) as V. unfold exec_llen.
+  destruct (get_list d k) as [| |l].
+  - destruct V as [V _]. rewrite V. reflexivity.
+  - rewrite V. reflexivity.
+  - destruct V as [V _]. rewrite V. reflexivity.
+Qed.
+
+(* ------------------------------------------------------------------ the full dispatcher of Mem/Exec.v *)
+Lemma list_name_cases n args c :
+  ref_clause n args = Some c ->
+  In n [B "llen"; B "lindex"; B "lrange"; B "ltrim"; B "lset"; B "lpush"; B "rpush"; B "lpushx"; B "rpushx";
+        B "lpop"; B "rpop"; B "lrem"; B "lpos"; B "lmove"; B "blpop"; B "brpop"].
+Proof.
+  unfold ref_clause. intros H.
+  repeat match type of H with
+         | (if is n ?lit then _ else _) = _ =>
+           let E := fresh "E" in destruct (is n lit) eqn:E; [apply bytes_eqb_eq in E; subst n; cbn; tauto|]
+         | (if is n ?l1 || is n ?l2 then _ else _) = _ =>
+           let E := fresh "E" in let F := fresh "F" in
+           destruct (is n l1) eqn:E; [apply bytes_eqb_eq in E; subst n; cbn; tauto|];
+           destruct (is n l2) eqn:F; [apply bytes_eqb_eq in F; subst n; cbn; tauto|]; cbn [orb] in H
+         end.
+  discriminate.
+Qed.
+
+(* a list command reaches its executor through the family table *)
+Lemma exec_cmd_list d now nowms name rest hint c :
+  ref_clause (lower name) (name :: rest) = Some c ->
+  exists res, lists_dispatch d now nowms (lower name) (name :: rest) hint = Some res /\
+              exec_cmd d now nowms (name :: rest) hint = res.
+Proof.
+  intros RC. apply list_name_cases in RC. unfold exec_cmd. generalize dependent (lower name). intros n RC.
+  cbn [In] in RC.
+  repeat (destruct RC as [<-|RC]; [eexists; split; reflexivity|]). contradiction.
+Qed.
+
+(* ------------------------------------------------------------------ programs *)
+Record step := mkStep { s_now : Z; s_nowms : Z; s_args : list bytes; s_hint : reply }.
+
+(* a list command, issued at a clock whose seconds and milliseconds agree *)
+Definition list_step (s : step) : Prop :=
+  s_now s = s_nowms s / 1000 /\
+  match s_args s with
+  | [] => False
+  | name :: _ => ref_clause (lower name) (s_args s) <> None
+  end.
+
+Fixpoint run (d : db) (p : list step) : list reply * db :=
+  match p with
+  | [] => ([], d)
+  | s :: p' =>
+    let '(r, d1) := exec d (s_now s) (s_nowms s) (s_args s) (s_hint s) in
+    let '(rs, d2) := run d1 p' in (r :: rs, d2)
+  end.
+
+(* the reference side: an abstract keyspace (what is observable of every key: value, deadline);
+   the passing of time makes keys whose deadline has come disappear *)
+Definition age (a : kview) (now : Z) : kview :=
+  fun k => match a k with
+           | Some (v, Some t) => if t <=? now then None else Some (v, Some t)
+           | o => o
+           end.
+
+Definition ref_step (a : kview) (s : step) (r : reply) (b : kview) : Prop :=
+  match s_args s with
+  | [] => False
+  | name :: _ =>
+    match ref_clause (lower name) (s_args s) with
+    | None => False
+    | Some (CBlock lft keys t) =>
+      (* a client alone: served at the first polling instant from the keyspace as it is then,
+         or nil (at the timeout: ListsBlock.bpop_blocking) with nothing changed *)
+      let a1 := age a ((s_nowms s + 100) / 1000) in
+      match first_ready lft a1 keys with
+      | RdNone => r = RNil /\ unchanged (age a (s_now s)) b
+      | _ => served lft keys a1 b r
+      end
+    | Some c => accepts c (age a (s_now s)) b r
+    end
+  end.
+
+Inductive ref_run : kview -> list step -> list reply -> kview -> Prop :=
+| rr_nil a : ref_run a [] [] a
+| rr_cons a s r b p rs z : ref_step a s r b -> ref_run b p rs z -> ref_run a (s :: p) (r :: rs) z.
+
+Lemma view_age d now k : view d now k = age (raw_view d) now k.
+Proof.
+  unfold view, age, raw_view, expired. destruct (db_get d k); [|reflexivity].
+  destruct (db_ttl d k); reflexivity.
+Qed.
+
+Lemma raw_purge_age d now k : db_wf d -> raw_view (purge d now) k = age (raw_view d) now k.
+Proof. intros W. rewrite raw_view_purge by exact W. apply view_age. Qed.
+
+Lemma purge_purge_view d now t1 k :
+  db_wf d -> now <= t1 -> raw_view (purge (purge d now) t1) k = age (raw_view d) t1 k.
+Proof.
+  intros W Hle. rewrite raw_view_purge by (apply db_wf_purge; exact W).
+  rewrite <- view_age. unfold view. rewrite db_get_purge.
+  assert (EX : expired (purge d now) t1 k = if expired d now k then false else expired d t1 k).
+  { unfold expired at 1. rewrite db_ttl_purge by exact W. destruct (expired d now k); reflexivity. }
+  assert (TT : db_ttl (purge d now) k = if expired d now k then None else db_ttl d k)
+    by (apply db_ttl_purge; exact W).
+  rewrite EX, TT. destruct (expired d now k) eqn:X.
+  - rewrite (expired_mono d now t1 k Hle X). destruct (db_get d k); reflexivity.
+  - reflexivity.
+Qed.
+
+Lemma ref_clause_bpop (left : bool) args :
+  ref_clause (if left then B "blpop" else B "brpop") args =
+  Some (match bpop_parse args with Some (keys, t) => CBlock left keys t | None => CErr end).
+Proof.
+  unfold bpop_parse, int_arg. destruct left.
+  - change (ref_clause (B "blpop") args) with
+      (Some (match args with
+             | _ :: (_ :: _ :: _) as rest =>
+               match atoi64 (last rest []) with
+               | Some t => if (t <? 0) || (t >? 9223372036) then CErr else CBlock true (removelast rest) t
+               | None => CErr end
+             | _ => CErr end)).
+    destruct args as [|a0 [|a1 [|a2 rest]]]; try reflexivity.
+    destruct (atoi64 (last (a1 :: a2 :: rest) [])); [|reflexivity].
+    destruct ((z <? 0) || (z >? 9223372036)); reflexivity.
+  - change (ref_clause (B "brpop") args) with
+      (Some (match args with
+             | _ :: (_ :: _ :: _) as rest =>
+               match atoi64 (last rest []) with
+               | Some t => if (t <? 0) || (t >? 9223372036) then CErr else CBlock false (removelast rest) t
+               | None => CErr end
+             | _ => CErr end)).
+    destruct args as [|a0 [|a1 [|a2 rest]]]; try reflexivity.
+    destruct (atoi64 (last (a1 :: a2 :: rest) [])); [|reflexivity].
+    destruct ((z <? 0) || (z >? 9223372036)); reflexivity.
+Qed.
+
+(* one step of the model is a step of the reference *)
+Lemma exec_ref_step d s r d' :
+  db_wf d -> lists_ok d -> list_step s ->
+  exec d (s_now s) (s_nowms s) (s_args s) (s_hint s) = (r, d') ->
+  ref_step (raw_view d) s r (raw_view d') /\ db_wf d' /\ lists_ok d'.
+Proof.
+  intros W Hok [CK LS] H. unfold ref_step. unfold exec in H.
+  destruct (s_args s) as [|name rest] eqn:EA; [contradiction|].
+  destruct (ref_clause (lower name) (name :: rest)) as [c|] eqn:RC; [|congruence]. clear LS.
+  set (now := s_now s) in *. set (nowms := s_nowms s) in *. set (dp := purge d now) in *.
+  assert (Wp : db_wf dp) by (apply db_wf_purge; exact W).
+  assert (Okp : lists_ok dp) by (apply lists_ok_purge; exact Hok).
+  assert (EV : forall k, raw_view dp k = age (raw_view d) now k) by (intros; apply raw_purge_age; exact W).
+  destruct (exec_cmd_list dp now nowms name rest (s_hint s) c RC) as (res & LD & EX).
+  rewrite EX in H. subst res.
+  destruct (is_bpop_name (lower name)) eqn:NB.
+  - (* BLPOP / BRPOP *)
+    assert (HB : exists left : bool, lower name = (if left then B "blpop" else B "brpop") /\
+                              exec_bpop left dp nowms (name :: rest) = (r, d')).
+    { unfold is_bpop_name in NB. unfold lists_dispatch in LD.
+      destruct (is (lower name) (B "blpop")) eqn:E1.
+      - apply bytes_eqb_eq in E1. rewrite E1 in *. exists true. split; [reflexivity|].
+        inversion LD. reflexivity.
+      - destruct (is (lower name) (B "brpop")) eqn:E2; [|discriminate NB].
+        apply bytes_eqb_eq in E2. rewrite E2 in *. exists false. split; [reflexivity|].
+        inversion LD. reflexivity. }
+    destruct HB as (left & EN & HB). rewrite EN in RC. rewrite ref_clause_bpop in RC.
+    destruct (exec_bpop_cases left dp nowms (name :: rest)) as [[P E]|(keys & t & P & E)].
+    + rewrite P in RC. inversion RC; subst c. rewrite E in HB. inversion HB; subst.
+      split; [|split; assumption]. cbn [accepts]. split; [reflexivity|]. intros k. apply EV.
+    + rewrite P in RC. inversion RC; subst c. cbv zeta.
+      set (t1 := (nowms + 100) / 1000) in *.
+      assert (Hle : now <= t1).
+      { unfold t1. rewrite CK. apply div1000_mono. lia. }
+      assert (EV1 : forall k, raw_view (purge dp t1) k = age (raw_view d) t1 k)
+        by (intros; apply purge_purge_view; assumption).
+      pose proof (bpop_try_ok left (purge dp t1) keys (db_wf_purge dp t1 Wp) (lists_ok_purge dp t1 Okp)) as T.
+      rewrite <- (first_ready_ext left _ _ keys EV1).
+      destruct (bpop_try left (purge dp t1) keys) as [[r1 d1]|].
+      * rewrite E in HB. inversion HB; subst r1 d1. destruct T as [Sv U].
+        assert (Sv' : served left keys (age (raw_view d) t1) (raw_view d') r)
+          by (eapply served_ext; [exact EV1|exact Sv]).
+        split.
+        -- unfold served in Sv. destruct (first_ready left (raw_view (purge dp t1)) keys); [contradiction|exact Sv'..].
+        -- split; [eapply lupd_wf; [exact U|apply db_wf_purge; exact Wp]
+                  |eapply lupd_ok; [exact U|apply lists_ok_purge; exact Okp]].
+      * rewrite E in HB. inversion HB; subst. rewrite T.
+        split; [|split; assumption]. split; [reflexivity|]. intros k. apply EV.
+  - destruct (lists_step dp now nowms (lower name) (name :: rest) (s_hint s) r d' Wp Okp NB LD)
+      as (c' & RC' & A & U).
+    rewrite RC in RC'. inversion RC'; subst c'.
+    split; [|split; [eapply lupd_wf; eassumption|eapply lupd_ok; eassumption]].
+    assert (A' : accepts c (age (raw_view d) now) (raw_view d') r)
+      by (eapply accepts_ext; [exact EV|reflexivity|exact A]).
+    destruct c; try exact A'. cbn [accepts] in A. contradiction.
+Qed.
+
+(* C09, refinement: every program of list commands, from any well-formed keyspace, is a run of
+   the reference with exactly the replies of the model, ending in the abstract keyspace of the
+   model's final state; the invariants hold throughout. *)
+Theorem list_programs_refine : forall p d,
+  db_wf d -> lists_ok d -> Forall list_step p ->
+  ref_run (raw_view d) p (fst (run d p)) (raw_view (snd (run d p))) /\
+  db_wf (snd (run d p)) /\ lists_ok (snd (run d p)).
+Proof.
+  induction p as [|s p IH]; intros d W Hok F.
+  - cbn. split; [constructor|split; assumption].
+  - inversion F as [|? ? Hs Hp]; subst. cbn [run].
+    destruct (exec d (s_now s) (s_nowms s) (s_args s) (s_hint s)) as [r d1] eqn:E.
+    destruct (exec_ref_step d s r d1 W Hok Hs E) as (St & W1 & Ok1).
+    specialize (IH d1 W1 Ok1 Hp). destruct (run d1 p) as [rs d2]. cbn [fst snd] in *.
+    destruct IH as (RR & W2 & Ok2). split; [|split; assumption].
+    econstructor; eassumption.
+Qed.
